@@ -1258,7 +1258,10 @@ class FilePackIndex(PackIndex):
         else:
             start = self._fan_out_table[idx - 1]
         end = self._fan_out_table[idx]
-        i = bisect_find_sha(start, end, sha, self._unpack_name)
+        if start >= end:
+            raise KeyError(sha)
+        # bisect_find_sha takes an inclusive upper bound; the fan-out entry is one past the last name
+        i = bisect_find_sha(start, end - 1, sha, self._unpack_name)
         if i is None:
             raise KeyError(sha)
         return self._unpack_offset(i)
